@@ -256,3 +256,28 @@ Example C08_example_trace :
   trace_tx_with_outcomes skel_apply (fun m t => nm_bump m (b_sender t)) [(7, 3)]
     (combine (firstn 4 ex_block) (firstn 4 (snd (skel_block_run [(7, 3)] ex_block)))) (mkBtx 7 6 (BExec false)) = Some false.
 Proof. vm_compute. repeat split; reflexivity. Qed.
+
+(* ---------------------------------------------------------------------------------------------------------------
+   Mempool admission and the CHECK STATE.  CheckTx / ReCheckTx / simulate of an Ethereum transaction: the ante handler
+   bumps the sender sequence in the context it was given; the trial execution (993e) rolls it back, runs -- any
+   program -- and is dropped, all on a branch.  What the check state keeps of an admitted transaction is the ante
+   handler's effect only: the sequence is one higher, every other key is as it was, whatever the trial execution did
+   (contract creation, self-destruct, precompile writes, even a write to the sequence key itself). *)
+Theorem C08_checktx_leaves_ante_effects_only : forall R (p : prog R) ctx k k',
+  checktx_admit ctx k p k' = if k =? k' then Some (seq_of ctx k + 1) else ctx k'.
+Proof. exact checktx_admit_state. Qed.
+Print Assumptions C08_checktx_leaves_ante_effects_only.
+
+(* consecutive admissions of one sender between two commits see the sequences n+1, n+2, ... in the check state: a second
+   transaction with the nonce of an admitted one finds the sequence already past it, the next nonce finds its own *)
+Theorem C08_checktx_sequences : forall R (p : prog R) m ctx k,
+  checktx_seqs m ctx k p = map (fun i => seq_of ctx k + N.of_nat i) (seq 1 m).
+Proof. exact checktx_seqs_spec. Qed.
+Print Assumptions C08_checktx_sequences.
+
+Example C08_example_checktx :
+  checktx_seqs 3 (fun k => if k =? 0 then Some 41 else None) 0
+    (PDo (KvSet 0 999) (fun _ => PDo (KvSet 5 1) (fun _ => PRead 0 (fun v => PRet v)))) = [42; 43; 44] /\
+  checktx_admit (fun k => if k =? 0 then Some 41 else None) 0
+    (PDo (KvSet 0 999) (fun _ => PDo (KvSet 5 1) (fun _ => PRead 0 (fun v => PRet v)))) 5 = None.
+Proof. vm_compute. split; reflexivity. Qed.
